@@ -244,9 +244,9 @@ def run(chk):
         for it in ((1, 5, 25) if (thorough or ci % 4 == 0) else (rng.choice([1, 5]),)):
             traces.append(run_curve({"motifs": motifs, "points": 40 if thorough else (20 if ci % 4 == 0 else 10), "iterations": it}))
         if thorough or ci % 3 == 0:
-            # away from slow-convergence points: 300 against 301 sweeps must agree to 1e-5
+            # away from slow-convergence points: 120 against 121 sweeps must agree to 1e-5 (measured: exactly equal on 60 random covers)
             for phi in (0.15, 0.5):
-                traces.append(run_converge({"motifs": motifs, "phi": phi, "iterations": 300}))
+                traces.append(run_converge({"motifs": motifs, "phi": phi, "iterations": 120}))
     runs = [t for t in traces if t["kind"] == "run"]
     if not any(t["events_known"] for t in runs):
         chk.not_decided.append("bookkeeping of every update (which messages are multiplied): the message table is not observable (no _H_tau attribute)")
